@@ -36,6 +36,10 @@ Proof. intro H. destruct (denom_eqb a b) eqn:E; [apply denom_eqb_eq in E; contra
 Lemma denom_eqb_false a b : denom_eqb a b = false -> a <> b.
 Proof. intros H E. subst. rewrite denom_eqb_refl in H. discriminate. Qed.
 
+(** the derived "erc20/<EIP55>" denom is no ordinary coin *)
+Lemma erc_eqb_coin t d : is_coin d = true -> denom_eqb (DErc t) d = false.
+Proof. destruct d; simpl; intro H; try reflexivity; discriminate. Qed.
+
 Lemma find_den_some s d m : find_den s d = Some m -> In m (reg s) /\ m_den m = d.
 Proof.
   unfold find_den. intro H. apply find_some in H as [H1 H2]. split; [exact H1|]. apply denom_eqb_eq. exact H2.
@@ -486,12 +490,12 @@ Proof.
   - intros t a. destruct (Nat.eqb t (next_tok s)); [destruct (Nat.eqb a owner); lia | apply I].
 Qed.
 
-Lemma create_from_coin_ok s d s' : Inv s -> create_coin_core s d = Some s' ->
+Lemma create_from_coin_gen_ok s dm d s' : Inv s -> create_coin_gen s d dm d = Some s' ->
   Inv s' /\ (forall m, In m (reg s) -> In m (reg s') /\ slack s' m = slack s m) /\
   exists t, reg s' = reg s ++ [{| m_tok := t; m_den := d; m_coin := true |}].
 Proof.
-  intros I H. unfold create_coin_core, bind, guard in H.
-  destruct (negb (is_some (find_den s d)) && meta s d) eqn:G1; [|discriminate].
+  intros I H. unfold create_coin_gen, bind, guard in H.
+  destruct (negb (is_some (find_den s d)) && meta s dm) eqn:G1; [|discriminate].
   destruct (negb (is_some (find_tok s (next_tok s)))) eqn:G2; [|discriminate].
   inversion H; subst s'; clear H. simpl.
   apply andb_true_iff in G1 as [G1 _]. apply negb_true_iff in G1.
@@ -521,6 +525,11 @@ Proof.
   - intros m Hm. split; [apply in_or_app; left; exact Hm | apply Hold; exact Hm].
   - exists (next_tok s). reflexivity.
 Qed.
+
+Lemma create_from_coin_ok s d s' : Inv s -> create_coin_core s d = Some s' ->
+  Inv s' /\ (forall m, In m (reg s) -> In m (reg s') /\ slack s' m = slack s m) /\
+  exists t, reg s' = reg s ++ [{| m_tok := t; m_den := d; m_coin := true |}].
+Proof. unfold create_coin_core. apply create_from_coin_gen_ok. Qed.
 
 Lemma create_from_erc20_ok s t s' : Inv s -> create_erc20_core s t = Some s' ->
   Inv s' /\ (forall m, In m (reg s) -> In m (reg s') /\ slack s' m = slack s m) /\
@@ -590,17 +599,17 @@ Lemma exec_ok s o s' : Inv s -> exec s o = Some s' ->
 Proof.
   intros I H. destruct o; simpl in H.
   - (* Fund *)
-    destruct d as [n|t]; [|discriminate].
+    destruct (is_coin d) eqn:Hd; [|discriminate].
     apply good_step_ok; [exact I|].
     pose proof (bank_mint_nn _ _ _ _ _ (inv_nn _ I) H) as N.
     apply bank_mint_spec in H as [F [X [B [S [Eb Es]]]]].
     split; [exact F|]. split; [|split; [|exact N]].
     + intros m Hm. unfold slack. rewrite B, S, Eb, Es. destruct (m_coin m) eqn:Hc.
       * unfold ind. split_ifs; lia.
-      * rewrite (inv_erc_den _ I m Hm Hc). simpl. unfold ind. lia.
-    + intros t _. rewrite S. simpl. unfold ind. lia.
+      * rewrite (inv_erc_den _ I m Hm Hc). rewrite (erc_eqb_coin _ _ Hd). unfold ind. lia.
+    + intros t _. rewrite S. rewrite (erc_eqb_coin _ _ Hd). unfold ind. lia.
   - (* SetMeta *)
-    destruct d; [|discriminate]. inversion H; subst s'. 
+    destruct (is_coin d); [|discriminate]. inversion H; subst s'. 
     split; [constructor; simpl; apply I|]. intros m Hm. split; [exact Hm|]. unfold slack. simpl. lia.
   - (* Deploy *)
     unfold bind, guard in H. destruct (negb (Nat.eqb owner Module) && (0 <=? x)) eqn:G; [|discriminate].
@@ -675,24 +684,24 @@ Proof.
       unfold ind. split_ifs; lia.
     + intros t0 _. rewrite S. reflexivity.
   - (* TfCreate *)
-    destruct d; [|discriminate]. unfold bind, guard in H.
-    destruct (negb (Nat.eqb creator Module) && negb (is_some (tfadmin s (DCoin n)))); [|discriminate].
+    destruct (is_coin d); [|discriminate]. unfold bind, guard in H.
+    destruct (negb (Nat.eqb creator Module) && negb (is_some (tfadmin s d))); [|discriminate].
     inversion H; subst s'.
     split; [constructor; simpl; apply I|]. intros m Hm. split; [exact Hm|]. unfold slack. simpl. lia.
   - (* TfMint *)
-    destruct d as [n|t]; [|discriminate]. unfold bind, guard in H.
-    destruct (is_admin s (DCoin n) sender && (0 <? x) && negb (blocked to)); [|discriminate].
+    destruct (is_coin d) eqn:Hd; [|discriminate]. unfold bind, guard in H.
+    destruct (is_admin s d sender && (0 <? x) && negb (blocked to)); [|discriminate].
     apply good_step_ok; [exact I|].
     pose proof (bank_mint_nn _ _ _ _ _ (inv_nn _ I) H) as N.
     apply bank_mint_spec in H as [F [X [B [S [Eb Es]]]]].
     split; [exact F|]. split; [|split; [|exact N]].
     + intros m Hm. unfold slack. rewrite B, S, Eb, Es. destruct (m_coin m) eqn:Hc.
       * unfold ind. split_ifs; lia.
-      * rewrite (inv_erc_den _ I m Hm Hc). simpl. unfold ind. lia.
-    + intros t _. rewrite S. simpl. unfold ind. lia.
+      * rewrite (inv_erc_den _ I m Hm Hc). rewrite (erc_eqb_coin _ _ Hd). unfold ind. lia.
+    + intros t _. rewrite S. rewrite (erc_eqb_coin _ _ Hd). unfold ind. lia.
   - (* TfBurn: the bank's blocked list is what keeps a denom admin out of the escrow *)
-    destruct d as [n|t]; [|discriminate]. unfold bind, guard in H.
-    destruct (is_admin s (DCoin n) sender && (0 <? x) && negb (blocked from)) eqn:G; [|discriminate].
+    destruct (is_coin d) eqn:Hd; [|discriminate]. unfold bind, guard in H.
+    destruct (is_admin s d sender && (0 <? x) && negb (blocked from)) eqn:G; [|discriminate].
     unfold blocked in G. decode.
     apply good_step_ok; [exact I|].
     pose proof (bank_burn_nn _ _ _ _ _ (inv_nn _ I) H) as N.
@@ -701,8 +710,8 @@ Proof.
     + intros m Hm. unfold slack. rewrite B, S, Eb, Es.
       rewrite (proj2 (Nat.eqb_neq Module from)) by congruence. destruct (m_coin m) eqn:Hc.
       * unfold ind. split_ifs; lia.
-      * rewrite (inv_erc_den _ I m Hm Hc). simpl. unfold ind. lia.
-    + intros t _. rewrite S. simpl. unfold ind. lia.
+      * rewrite (inv_erc_den _ I m Hm Hc). rewrite (erc_eqb_coin _ _ Hd). unfold ind. lia.
+    + intros t _. rewrite S. rewrite (erc_eqb_coin _ _ Hd). unfold ind. lia.
   - (* TfChangeAdmin *)
     unfold bind, guard in H. destruct (is_admin s d sender); [|discriminate]. inversion H; subst s'.
     split; [constructor; simpl; apply I|]. intros m Hm. split; [exact Hm|]. unfold slack. simpl. lia.
@@ -724,16 +733,16 @@ Proof.
     unfold blocked in G. decode.
     apply bank_send_spec in H as [_ [_ [B _]]]. rewrite B.
     rewrite (proj2 (Nat.eqb_neq Module to)), (proj2 (Nat.eqb_neq Module caller)) by congruence. unfold ind. split_ifs; lia.
-  - destruct d; [|discriminate].
-    destruct (negb (Nat.eqb creator Module) && negb (is_some (tfadmin s (DCoin n)))); [|discriminate].
+  - destruct (is_coin d); [|discriminate].
+    destruct (negb (Nat.eqb creator Module) && negb (is_some (tfadmin s d))); [|discriminate].
     inversion H; subst s'. reflexivity.
-  - destruct d as [n|t]; [|discriminate].
-    destruct (is_admin s (DCoin n) sender && (0 <? x) && negb (blocked to)) eqn:G; [|discriminate].
+  - destruct (is_coin d); [|discriminate].
+    destruct (is_admin s d sender && (0 <? x) && negb (blocked to)) eqn:G; [|discriminate].
     unfold blocked in G. decode.
     apply bank_mint_spec in H as [_ [_ [B _]]]. rewrite B.
     rewrite (proj2 (Nat.eqb_neq Module to)) by congruence. unfold ind. split_ifs; lia.
-  - destruct d as [n|t]; [|discriminate].
-    destruct (is_admin s (DCoin n) sender && (0 <? x) && negb (blocked from)) eqn:G; [|discriminate].
+  - destruct (is_coin d); [|discriminate].
+    destruct (is_admin s d sender && (0 <? x) && negb (blocked from)) eqn:G; [|discriminate].
     unfold blocked in G. decode.
     apply bank_burn_spec in H as [_ [_ [B _]]]. rewrite B.
     rewrite (proj2 (Nat.eqb_neq Module from)) by congruence. unfold ind. split_ifs; lia.
@@ -819,7 +828,7 @@ Proof.
   intro H. simpl. unfold bind. destruct (pay_create_fee s sender) as [s0|] eqn:Pf; [|reflexivity].
   destruct (pay_create_fee_reg _ _ _ Pf) as [R _].
   assert (H0 : In d (map m_den (reg s0))) by (rewrite R; exact H).
-  destruct (find_den_in s0 d H0) as [m E]. unfold create_coin_core. rewrite E. reflexivity.
+  destruct (find_den_in s0 d H0) as [m E]. unfold create_coin_core, create_coin_gen. rewrite E. reflexivity.
 Qed.
 
 Lemma create_erc20_rejected s sender t :
